@@ -281,7 +281,7 @@ def musig_agg3_orders(d1, d2, d3):
             musig_agg([d2, d3, d1]), musig_agg([d3, d1, d2]), musig_agg([d3, d2, d1]))
 
 
-def musig_flow(ds, ks, msg, merkle_root, ghost=True):
+def musig_flow(ds, ks, msg, merkle_root, ghost=False):
     """the two-round signing session as the repository's tests run it: every signer contributes a nonce
     pair and a partial signature, the sum is turned into a signature;
     -> (x-only key the signature is for, 64 signature bytes)"""
@@ -313,3 +313,77 @@ def musig_flow2(d1, d2, k11, k12, k21, k22, msg, root):
 
 def musig_flow3(d1, d2, d3, k11, k12, k21, k22, k31, k32, msg, root):
     return musig_flow([d1, d2, d3], [(k11, k12), (k21, k22), (k31, k32)], msg, root)
+
+
+# ------------------------------------------------------------------------------------------------
+# Part 2: concrete builders for the bounded companions (never executed symbolically)
+# ------------------------------------------------------------------------------------------------
+def all_shapes(n, start=0):
+    """every binary tree shape with n leaves, leaves numbered left to right from `start`"""
+    if n == 1:
+        return [start]
+    out = []
+    for k in range(1, n):
+        for left in all_shapes(k, start):
+            for right in all_shapes(n - k, start + k):
+                out.append((left, right))
+    return out
+
+
+def build_tree(shape, leaves):
+    return _tree(shape, leaves)
+
+
+def mirror(shape):
+    if isinstance(shape, int):
+        return shape
+    return (mirror(shape[1]), mirror(shape[0]))
+
+
+def spec_tree(shape, specs):
+    """the nested-tuple tree of verif.specs.taproot for leaf specs [(version, script bytes)]"""
+    if isinstance(shape, int):
+        return specs[shape]
+    return (spec_tree(shape[0], specs), spec_tree(shape[1], specs))
+
+
+def musig_session(privs, nonces, msg, merkle_root=b"", order=None, drop=None, alter=None):
+    """run a complete signing session through the real API.
+    order: permutation in which the public keys are handed to MuSigTapScript;
+    drop: index of a signer whose partial signature is left out; alter: (index, function on the partial sig).
+    -> dict(musig, key (point the signature is for), r, s_sum, partials, sig (SchnorrSignature or None), error)"""
+    points = [p.point for p in privs]
+    if order is not None:
+        points = [points[i] for i in order]
+    musig = MuSigTapScript(points)
+    nonce_points = [(k1 * G, k2 * G) for (k1, k2) in nonces]
+    nonce_sums = musig.nonce_sums(nonce_points)
+    r = musig.compute_r(nonce_sums, msg)
+    partials = []
+    for priv, ks in zip(privs, nonces):
+        k = musig.compute_k(ks, nonce_sums, msg)
+        partials.append(musig.sign(priv, k, r, msg, merkle_root))
+    used = list(partials)
+    if alter is not None:
+        used[alter[0]] = alter[1](used[alter[0]])
+    if drop is not None:
+        used = [s for i, s in enumerate(used) if i != drop]
+    s_sum = sum(used)
+    key = musig.point.tweaked_key(merkle_root) if merkle_root else musig.point.even_point()
+    out = {"musig": musig, "key": key, "r": r, "s_sum": s_sum, "partials": partials, "sig": None, "error": None}
+    try:
+        out["sig"] = musig.get_signature(s_sum, r, msg, merkle_root)
+    except Exception as e:          # the library reports an invalid aggregate by raising
+        out["error"] = e
+    return out
+
+
+def p2tr_spend_tx(script_pubkey, amount=100000, network="signet"):
+    """one-input transaction spending a P2TR output whose prevout is preset like the repository's tests do"""
+    from buidl.tx import Tx, TxIn, TxOut
+    from buidl.script import P2WPKHScriptPubKey
+    tx_in = TxIn(bytes.fromhex("11" * 32), 0, sequence=0xFFFFFFFE)
+    tx_in._value = amount
+    tx_in._script_pubkey = script_pubkey
+    tx_out = TxOut(amount - 10000, P2WPKHScriptPubKey(bytes.fromhex("22" * 20)))
+    return Tx(2, [tx_in], [tx_out], 0, network=network, segwit=True)
